@@ -17,7 +17,7 @@ func vPara(texts ...string) paragraphXML {
 // multi-paragraph cell keeps its paragraphs in order.
 //
 //symgo:harness prop=C16 kernel=K1-docx-table-grid
-//symgo:desc harness-built tableXML (the XML unmarshalling itself is outside the claim): 2..3 rows x 1..2 columns; per cell vMerge in {absent, restart, continue} (enumerated; no continue in the first row), gridSpan absent or, in one-column tables, a symbolic digit 1..3; cell (0,0) has two paragraphs of two runs: RowSpan of every non-continuation cell = 1 + length of the continuation run directly below it in the same grid column; ColSpan = gridSpan; paragraph and run order kept
+//symgo:desc harness-built tableXML (the XML unmarshalling itself is outside the claim): 2..3 rows x 1..2 columns; per cell vMerge in {absent, restart, continue} (enumerated; no continue in the first row; continue written as <w:vMerge/> or with w:val="continue"), gridSpan absent or, in one-column tables, a symbolic digit 1..3; cell (0,0) has two paragraphs of two runs: RowSpan of every non-continuation cell = 1 + length of the continuation run directly below it in the same grid column; ColSpan = gridSpan; paragraph and run order kept
 func H_C16_docx_table_grid() {
 	rows, cols := vAnyIntIn(2, 3), vAnyIntIn(1, 2)
 	kind := make([][]int, rows) // 0 absent, 1 restart, 2 continue
@@ -42,7 +42,8 @@ func H_C16_docx_table_grid() {
 			case 1:
 				cell.Properties.VMerge = vMergeXML{XMLName: xml.Name{Local: "vMerge"}, Val: "restart"}
 			case 2:
-				cell.Properties.VMerge = vMergeXML{XMLName: xml.Name{Local: "vMerge"}}
+				// a continuation is <w:vMerge/> or, spelled out, <w:vMerge w:val="continue"/>
+				cell.Properties.VMerge = vMergeXML{XMLName: xml.Name{Local: "vMerge"}, Val: []string{"", "continue"}[vAnyIntIn(0, 1)]}
 			}
 			if cols == 1 {
 				// gridSpan as written in the file: a symbolic decimal digit 1..3
